@@ -1874,4 +1874,383 @@ theorem clearF_nofault {s : CState} (h : s.flt = none) :
   obtain ⟨d', hd⟩ := clearLoop_none s.onDisk s.m.files
   refine ⟨?_, ?_, ?_⟩ <;> simp [clearF, h, hd, (clear_len_pos s.m).2.2]
 
+theorem wstep_nofault {s s' : CState} {w w' : Writer} (hf : s.flt = none) (h : wstep s w = some (w', s')) :
+    s'.flt = none ∧ s'.m.err = s.m.err ∧ s'.outs = s.outs := by
+  unfold wstep at h
+  cases hpc : w.pc <;> simp only [hpc, hf, tick_none] at h
+  · cases hr : s.writable.recv with
+    | none => simp [hr] at h
+    | some p =>
+      obtain ⟨r, ch⟩ := p
+      simp only [hr, Bool.false_eq_true, if_false, Option.some.injEq, Prod.mk.injEq] at h
+      obtain ⟨_, rfl⟩ := h; exact ⟨rfl, rfl, rfl⟩
+  · simp only [Option.some.injEq, Prod.mk.injEq] at h; obtain ⟨_, rfl⟩ := h; exact ⟨by first | rfl | exact hf, rfl, rfl⟩
+  · cases htodo : w.todo with
+    | nil => simp only [htodo, Option.some.injEq, Prod.mk.injEq] at h; obtain ⟨_, rfl⟩ := h; exact ⟨by first | rfl | exact hf, rfl, rfl⟩
+    | cons e t =>
+      simp only [htodo, Bool.false_eq_true, if_false, Option.some.injEq, Prod.mk.injEq] at h
+      obtain ⟨_, rfl⟩ := h; exact ⟨rfl, rfl, rfl⟩
+  · simp only [Bool.false_eq_true, if_false, Option.some.injEq, Prod.mk.injEq] at h
+    obtain ⟨_, rfl⟩ := h; exact ⟨rfl, rfl, rfl⟩
+  · split at h
+    · simp only [Option.some.injEq, Prod.mk.injEq] at h; obtain ⟨_, rfl⟩ := h; exact ⟨by first | rfl | exact hf, rfl, rfl⟩
+    · simp at h
+  · simp at h
+
+theorem condClear_nofault (b : Bool) {s : CState} (hf : s.flt = none) (he : s.m.err = none) :
+    (if b = true then (clearF s).1 else s).flt = none ∧ (if b = true then (clearF s).1 else s).m.err = none := by
+  cases b
+  · exact ⟨hf, he⟩
+  · exact ⟨(clearF_nofault hf).2.1, (clearF_nofault hf).2.2⟩
+
+theorem atEof_keep (s : CState) : (atEof s).flt = s.flt ∧ (atEof s).m = s.m := by
+  unfold atEof; split <;> exact ⟨rfl, rfl⟩
+
+theorem pullF_nofault {s : CState} (hf : s.flt = none) (he : s.m.err = none) :
+    (pullF s).2.1 ≠ .ioerr ∧ (pullF s).1.flt = none ∧ (pullF s).1.m.err = none := by
+  cases hfa : s.m.fast
+  · cases hpm : popMin s.m.files with
+    | none =>
+      have e1 : pullF s = (atEof (if s.m.autoClear = true then (clearF s).1 else s), .eof, none) := by
+        simp [pullF, hfa, hpm]
+      rw [e1]
+      obtain ⟨a, b⟩ := atEof_keep (if s.m.autoClear = true then (clearF s).1 else s)
+      obtain ⟨c', d⟩ := condClear_nofault s.m.autoClear hf he
+      exact ⟨by simp, by rw [a]; exact c', by rw [b]; exact d⟩
+    | some p =>
+      obtain ⟨low, others⟩ := p
+      cases hr : low.rest <;> cases hh : low.head <;>
+        simp [pullF, hfa, hpm, hf, tick_none, hr, hh, he]
+  · cases hch : s.m.chunk with
+    | none =>
+      have e1 : pullF s = (atEof (if s.m.autoClear = true then (clearF s).1 else s), .eof, none) := by
+        simp [pullF, hfa, hch]
+      rw [e1]
+      obtain ⟨a, b⟩ := atEof_keep (if s.m.autoClear = true then (clearF s).1 else s)
+      obtain ⟨c', d⟩ := condClear_nofault s.m.autoClear hf he
+      exact ⟨by simp, by rw [a]; exact c', by rw [b]; exact d⟩
+    | some ch =>
+      cases hg : ch[s.m.pos]? with
+      | some e => simp [pullF, hfa, hch, hg, hf, he]
+      | none =>
+        by_cases h2 : 2 ≤ s.m.pool
+        · simp [pullF, hfa, hch, hg, h2, hf, he]
+        · have e1 : pullF s = (atEof (if s.m.autoClear = true
+                then (clearF { s with m := { s.m with pool := s.m.pool + 1, chunk := none } }).1
+                else { s with m := { s.m with pool := s.m.pool + 1, chunk := none } }), .eof, none) := by
+            simp [pullF, hfa, hch, hg, h2]
+          rw [e1]
+          obtain ⟨a, b⟩ := atEof_keep (if s.m.autoClear = true
+                then (clearF { s with m := { s.m with pool := s.m.pool + 1, chunk := none } }).1
+                else { s with m := { s.m with pool := s.m.pool + 1, chunk := none } })
+          obtain ⟨c', d⟩ := condClear_nofault s.m.autoClear
+            (s := { s with m := { s.m with pool := s.m.pool + 1, chunk := none } }) hf he
+          exact ⟨by simp, by rw [a]; exact c', by rw [b]; exact d⟩
+
+theorem NoFault_finish {s s1 : CState} (h : NoFault s) (hf : s1.flt = none) (he : s1.m.err = none)
+    (ho : s1.outs = s.outs) (r : Res) (v : Option Elem) (hr : r ≠ .ioerr) : NoFault (finishOp s1 r v) := by
+  refine ⟨hf, he, ?_⟩
+  intro o hmem
+  simp only [finishOp, List.mem_cons] at hmem
+  rcases hmem with rfl | hmem
+  · exact hr
+  · rw [ho] at hmem; exact h.2.2 o hmem
+
+theorem NoFault_cstep {s t : CState} (h : NoFault s) (hst : CStep s t) : NoFault t := by
+  obtain ⟨hf, he, ho⟩ := h
+  have h0 : NoFault s := ⟨hf, he, ho⟩
+  cases hst with
+  | pushErr _ _ _ _ _ he' => rw [he] at he'; cases he'
+  | finErr _ _ _ _ he' => rw [he] at he'; cases he'
+  | recvErr _ _ _ _ _ _ he' => rw [he] at he'; cases he'
+  | waitErr _ _ _ he' => rw [he] at he'; cases he'
+  | pushNil => exact NoFault_finish h0 hf he rfl _ _ (by simp)
+  | pushFull => exact ⟨hf, he, ho⟩
+  | pushRoom e rest ch _ _ _ hch hfull =>
+    apply NoFault_finish h0
+    · exact hf
+    · show (push s.m e).1.err = none
+      rw [push_room e he hch hfull]; exact he
+    · rfl
+    · simp
+  | finNil => exact NoFault_finish h0 hf he rfl _ _ (by simp)
+  | finFast rest ch _ _ _ hch hlt =>
+    apply NoFault_finish h0
+    · exact hf
+    · show (finalise s.m).1.err = none
+      simp [finalise, he, hch, hlt]
+    · rfl
+    · simp
+  | finDisk => exact ⟨hf, he, ho⟩
+  | finEmpty rest ch flt fs ok _ _ _ _ _ _ hp =>
+    obtain ⟨fs', h'⟩ := primeAll_none s.m.files
+    rw [hf, h'] at hp
+    simp only [Prod.mk.injEq] at hp
+    obtain ⟨rfl, rfl, rfl⟩ := hp
+    apply NoFault_finish h0
+    · rfl
+    · exact he
+    · rfl
+    · simp
+  | pull =>
+    obtain ⟨a, b, c'⟩ := pullF_nofault hf he
+    exact NoFault_finish h0 b c' (pullF_frame s).outs _ _ a
+  | clear =>
+    obtain ⟨a, b, c'⟩ := clearF_nofault hf
+    apply NoFault_finish h0 b c' (clearF_frame s).outs _ _
+    rw [a]; simp
+  | send => exact ⟨hf, he, ho⟩
+  | recvOk =>
+    apply NoFault_finish h0
+    · exact hf
+    · exact he
+    · rfl
+    · simp
+  | fsend => exact ⟨hf, he, ho⟩
+  | fwrite w s' _ hw =>
+    obtain ⟨a, b, c'⟩ := wstep_nofault hf hw
+    exact ⟨a, by show s'.m.err = none; rw [b]; exact he, by show ∀ o ∈ s'.outs, _; rw [c']; exact ho⟩
+  | waitOk flt fs ok _ _ _ hp =>
+    obtain ⟨fs', h'⟩ := primeAll_none s.m.files
+    rw [hf, h'] at hp
+    simp only [Prod.mk.injEq] at hp
+    obtain ⟨rfl, rfl, rfl⟩ := hp
+    apply NoFault_finish h0
+    · rfl
+    · exact he
+    · rfl
+    · simp
+
+theorem NoFault_step {s t : CState} {i : Nat} (h : NoFault s) (hst : step s i = some t) : NoFault t := by
+  cases i with
+  | zero => exact NoFault_cstep h (cstep_cases (show cstep s = some t from hst))
+  | succ k =>
+    simp only [step] at hst
+    cases hk : s.writers[k]? with
+    | none => simp [hk] at hst
+    | some w =>
+      simp only [hk] at hst
+      cases hw : wstep s w with
+      | none => simp [hw] at hst
+      | some p =>
+        obtain ⟨w', s'⟩ := p
+        simp only [hw, Option.some.injEq] at hst; subst hst
+        obtain ⟨a, b, c'⟩ := wstep_nofault h.1 hw
+        exact ⟨a, by show s'.m.err = none; rw [b]; exact h.2.1, by show ∀ o ∈ s'.outs, _; rw [c']; exact h.2.2⟩
+
+theorem reach_NoFault {conc : Bool} {c : Nat} {ac acl : Bool} {prog : List Op} {s : CState}
+    (h : Reach (sys conc c ac acl prog none) s) : NoFault s :=
+  inv_of_reach _ NoFault ⟨rfl, rfl, by simp [sys, initState]⟩ (fun _ _ _ hs hst => NoFault_step hs hst) s h
+
+/-! ### residue of the temporary directory: AutoClean -/
+
+theorem clearF_dir (s : CState) : (clearF s).1.dirExists = s.dirExists ∧ (clearF s).1.autoClean = s.autoClean := by
+  unfold clearF
+  cases clearLoop s.flt s.onDisk s.m.files with
+  | mk flt rest => obtain ⟨d, ok⟩ := rest; cases ok <;> exact ⟨rfl, rfl⟩
+
+theorem condClear_dir (b : Bool) (s : CState) :
+    (if b = true then (clearF s).1 else s).dirExists = s.dirExists
+    ∧ (if b = true then (clearF s).1 else s).autoClean = s.autoClean := by
+  cases b
+  · exact ⟨rfl, rfl⟩
+  · exact clearF_dir s
+
+theorem atEof_dir (s : CState) : (s.autoClean = true → (atEof s).dirExists = false)
+    ∧ (s.dirExists = false → (atEof s).dirExists = false) := by
+  unfold atEof
+  constructor
+  · intro h; simp [h]
+  · intro h; split
+    · rfl
+    · exact h
+
+/-- `Pull` never re-creates the directory, and removes it when it reports io.EOF under AutoClean -/
+theorem pullF_dir (s : CState) :
+    (s.dirExists = false → (pullF s).1.dirExists = false)
+    ∧ ((pullF s).2.1 = .eof → s.autoClean = true → (pullF s).1.dirExists = false) := by
+  have eofcase : ∀ (s1 : CState), s1.dirExists = s.dirExists → s1.autoClean = s.autoClean →
+      (s.dirExists = false → (atEof (if s.m.autoClear = true then (clearF s1).1 else s1)).dirExists = false)
+      ∧ (s.autoClean = true → (atEof (if s.m.autoClear = true then (clearF s1).1 else s1)).dirExists = false) := by
+    intro s1 h1 h2
+    obtain ⟨a, b⟩ := condClear_dir s.m.autoClear s1
+    obtain ⟨c', d⟩ := atEof_dir (if s.m.autoClear = true then (clearF s1).1 else s1)
+    exact ⟨fun h => d (by rw [a, h1]; exact h), fun h => c' (by rw [b, h2]; exact h)⟩
+  cases hfa : s.m.fast
+  · cases hpm : popMin s.m.files with
+    | none =>
+      have e1 : pullF s = (atEof (if s.m.autoClear = true then (clearF s).1 else s), .eof, none) := by
+        simp [pullF, hfa, hpm]
+      rw [e1]
+      obtain ⟨a, b⟩ := eofcase s rfl rfl
+      exact ⟨a, fun _ => b⟩
+    | some p =>
+      obtain ⟨low, others⟩ := p
+      cases ht : tick s.flt .pdecode with
+      | mk bad flt =>
+        cases bad <;> cases hr : low.rest <;> cases hh : low.head <;>
+          simp [pullF, hfa, hpm, ht, hr, hh]
+  · cases hch : s.m.chunk with
+    | none =>
+      have e1 : pullF s = (atEof (if s.m.autoClear = true then (clearF s).1 else s), .eof, none) := by
+        simp [pullF, hfa, hch]
+      rw [e1]
+      obtain ⟨a, b⟩ := eofcase s rfl rfl
+      exact ⟨a, fun _ => b⟩
+    | some ch =>
+      cases hg : ch[s.m.pos]? with
+      | some e => simp [pullF, hfa, hch, hg]
+      | none =>
+        by_cases h2 : 2 ≤ s.m.pool
+        · simp [pullF, hfa, hch, hg, h2]
+        · have e1 : pullF s = (atEof (if s.m.autoClear = true
+                then (clearF { s with m := { s.m with pool := s.m.pool + 1, chunk := none } }).1
+                else { s with m := { s.m with pool := s.m.pool + 1, chunk := none } }), .eof, none) := by
+            simp [pullF, hfa, hch, hg, h2]
+          rw [e1]
+          obtain ⟨a, b⟩ := eofcase { s with m := { s.m with pool := s.m.pool + 1, chunk := none } } rfl rfl
+          exact ⟨a, fun _ => b⟩
+
+theorem wstep_dir {s s' : CState} {w w' : Writer} (h : wstep s w = some (w', s')) :
+    s'.dirExists = s.dirExists ∧ s'.autoClean = s.autoClean := by
+  unfold wstep at h
+  cases hpc : w.pc <;> simp only [hpc] at h
+  · cases hr : s.writable.recv with
+    | none => simp [hr] at h
+    | some p =>
+      obtain ⟨r, ch⟩ := p
+      simp only [hr] at h
+      cases ht : tick s.flt .tempfile with
+      | mk bad flt =>
+        simp only [ht] at h
+        cases bad <;> simp only [Bool.false_eq_true, if_false, if_true, Option.some.injEq, Prod.mk.injEq] at h <;>
+          obtain ⟨_, rfl⟩ := h <;> exact ⟨rfl, rfl⟩
+  · simp only [Option.some.injEq, Prod.mk.injEq] at h; obtain ⟨_, rfl⟩ := h; exact ⟨rfl, rfl⟩
+  · cases htodo : w.todo with
+    | nil => simp only [htodo, Option.some.injEq, Prod.mk.injEq] at h; obtain ⟨_, rfl⟩ := h; exact ⟨rfl, rfl⟩
+    | cons e t =>
+      simp only [htodo] at h
+      cases ht : tick s.flt .encode with
+      | mk bad flt =>
+        simp only [ht] at h
+        cases bad <;> simp only [Bool.false_eq_true, if_false, if_true, Option.some.injEq, Prod.mk.injEq] at h <;>
+          obtain ⟨_, rfl⟩ := h <;> exact ⟨rfl, rfl⟩
+  · cases ht : tick s.flt .sync with
+    | mk bad flt =>
+      simp only [ht, Option.some.injEq, Prod.mk.injEq] at h
+      obtain ⟨_, rfl⟩ := h; exact ⟨rfl, rfl⟩
+  · split at h
+    · simp only [Option.some.injEq, Prod.mk.injEq] at h; obtain ⟨_, rfl⟩ := h; exact ⟨rfl, rfl⟩
+    · simp at h
+  · simp at h
+
+/-- under AutoClean, once a `Pull` has reported io.EOF the directory is gone (no fault injected) -/
+def EofDir (s : CState) : Prop :=
+  NoFault s ∧ (s.autoClean = true → (∃ o ∈ s.outs, o.res = .eof) → s.dirExists = false)
+
+theorem EofDir_finish {s s1 : CState} (h : EofDir s) (hn : NoFault (finishOp s1 r v))
+    (ha : s1.autoClean = s.autoClean) (ho : s1.outs = s.outs)
+    (hd : s.dirExists = false → s1.dirExists = false)
+    (heof : r = .eof → s.autoClean = true → s1.dirExists = false) : EofDir (finishOp s1 r v) := by
+  refine ⟨hn, ?_⟩
+  intro hacl ⟨o, hmem, hres⟩
+  have hacl' : s.autoClean = true := by rw [← ha]; exact hacl
+  simp only [finishOp, List.mem_cons] at hmem
+  show s1.dirExists = false
+  rcases hmem with rfl | hmem
+  · exact heof hres hacl'
+  · rw [ho] at hmem
+    exact hd (h.2 hacl' ⟨o, hmem, hres⟩)
+
+theorem EofDir_cstep {s t : CState} (h : EofDir s) (hst : CStep s t) : EofDir t := by
+  have hn : NoFault t := NoFault_cstep h.1 hst
+  cases hst with
+  | pushErr _ _ _ _ _ he' => rw [h.1.2.1] at he'; cases he'
+  | finErr _ _ _ _ he' => rw [h.1.2.1] at he'; cases he'
+  | recvErr _ _ _ _ _ _ he' => rw [h.1.2.1] at he'; cases he'
+  | waitErr _ _ _ he' => rw [h.1.2.1] at he'; cases he'
+  | pushNil => exact EofDir_finish h hn rfl rfl id (fun h' => by cases h')
+  | pushFull => exact ⟨hn, h.2⟩
+  | pushRoom => exact EofDir_finish h hn rfl rfl id (fun h' => by cases h')
+  | finNil => exact EofDir_finish h hn rfl rfl id (fun h' => by cases h')
+  | finFast => exact EofDir_finish h hn rfl rfl id (fun h' => by cases h')
+  | finDisk => exact ⟨hn, h.2⟩
+  | finEmpty _ _ _ _ ok =>
+    apply EofDir_finish h hn rfl rfl id
+    intro h'; cases ok <;> simp at h'
+  | pull =>
+    obtain ⟨a, b⟩ := pullF_dir s
+    exact EofDir_finish h hn (pullF_frame s).autoClean (pullF_frame s).outs a b
+  | clear =>
+    exact EofDir_finish h hn (clearF_dir s).2 (clearF_frame s).outs (fun h' => by rw [(clearF_dir s).1]; exact h')
+      (fun h' => by
+        have := (clearF_nofault h.1.1).1
+        rw [this] at h'; cases h')
+  | send => exact ⟨hn, h.2⟩
+  | recvOk => exact EofDir_finish h hn rfl rfl id (fun h' => by cases h')
+  | fsend => exact ⟨hn, h.2⟩
+  | fwrite w s' _ hw =>
+    obtain ⟨_, _, ho⟩ := wstep_nofault h.1.1 hw
+    refine ⟨hn, ?_⟩
+    intro hacl hex
+    show s'.dirExists = false
+    rw [(wstep_dir hw).1]
+    exact h.2 (by rw [← (wstep_dir hw).2]; exact hacl) (by rw [← ho]; exact hex)
+  | waitOk _ _ ok =>
+    apply EofDir_finish h hn rfl rfl id
+    intro h'; cases ok <;> simp at h'
+
+theorem EofDir_step {s t : CState} {i : Nat} (h : EofDir s) (hst : step s i = some t) : EofDir t := by
+  cases i with
+  | zero => exact EofDir_cstep h (cstep_cases (show cstep s = some t from hst))
+  | succ k =>
+    have hn : NoFault t := NoFault_step h.1 hst
+    simp only [step] at hst
+    cases hk : s.writers[k]? with
+    | none => simp [hk] at hst
+    | some w =>
+      simp only [hk] at hst
+      cases hw : wstep s w with
+      | none => simp [hw] at hst
+      | some p =>
+        obtain ⟨w', s'⟩ := p
+        simp only [hw, Option.some.injEq] at hst; subst hst
+        obtain ⟨_, _, ho⟩ := wstep_nofault h.1.1 hw
+        refine ⟨hn, ?_⟩
+        intro hacl hex
+        show s'.dirExists = false
+        rw [(wstep_dir hw).1]
+        exact h.2 (by rw [← (wstep_dir hw).2]; exact hacl) (by rw [← ho]; exact hex)
+
+theorem reach_EofDir {conc : Bool} {c : Nat} {ac acl : Bool} {prog : List Op} {s : CState}
+    (h : Reach (sys conc c ac acl prog none) s) : EofDir s :=
+  inv_of_reach _ EofDir ⟨⟨rfl, rfl, by simp [sys, initState]⟩, fun _ h' => by simp [sys, initState] at h'⟩
+    (fun _ _ _ hs hst => EofDir_step hs hst) s h
+
+theorem autoClean_const {conc : Bool} {c : Nat} {ac acl : Bool} {prog : List Op} {flt : Fault} {s : CState}
+    (h : Reach (sys conc c ac acl prog flt) s) : s.autoClean = acl := by
+  refine inv_of_reach _ (fun s => s.autoClean = acl) rfl ?_ s h
+  intro a i b ha hst
+  cases i with
+  | zero =>
+    have hcs := cstep_cases (show cstep a = some b from hst)
+    cases hcs with
+    | pull => show (pullF a).1.autoClean = acl; rw [(pullF_frame a).autoClean]; exact ha
+    | clear => show (clearF a).1.autoClean = acl; rw [(clearF_frame a).autoClean]; exact ha
+    | fwrite w s' _ hw => show s'.autoClean = acl; rw [(wstep_dir hw).2]; exact ha
+    | _ => exact ha
+  | succ k =>
+    have hst : step a (k + 1) = some b := hst
+    simp only [step] at hst
+    cases hk : a.writers[k]? with
+    | none => simp [hk] at hst
+    | some w =>
+      simp only [hk] at hst
+      cases hw : wstep a w with
+      | none => simp [hw] at hst
+      | some p =>
+        obtain ⟨w', s'⟩ := p
+        simp only [hw, Option.some.injEq] at hst; subst hst
+        show s'.autoClean = acl; rw [(wstep_dir hw).2]; exact ha
+
 end Biogo.MorassConc
